@@ -267,6 +267,9 @@ ALIAS_CASES = [
      '[true, 2, 2, "lit", "lit", [0, "lit"], 1, "child", "child", 1, [1]]'),
     ("r := (1:3).bear({w: 1})\nm4 := %{(1:3): 'lit, r: 'child}\no := {k: 1}.bear({k: 1})\nm5 := %{{k: 1}: 'lit, o: 'child}\n",
      "[(1:3) == r, m4.len, m4.values, {k: 1} == o, m5.len, m5.values]", '[true, 1, ["lit"], true, 1, ["lit"]]'),
+    # keys that print alike but are not == stay two keys; a key present with value nil is present
+    ("m := %{[0.1 + 0.2]: 'a, [0.3]: 'b}\n", "[m.len, m[[0.3]], m[[0.1 + 0.2]], [0.1 + 0.2] == [0.3]]", '[2, "b", "a", false]'),
+    ('n := %{"len": nil, \'keys: nil, "x": 1}\n', '[n["len"], n[\'keys], n["nope"], n.len, n["x"], %{}["len"].proto[\'_name]]', '[nil, nil, nil, 3, 1, "Func"]'),
     ("a := {x: 1, _h: 2}\nc := {_h: 5, **a, **a}\n", "[a, c, c.keys, c.values(private?: true)]",
      '[{"_h": 2, "x": 1}, {"_h": 5, "x": 1}, ["x"], [1, 5]]'),
 ]
